@@ -44,8 +44,17 @@ func Pool() []PoolObj {
 	for i := 0; i < 3; i++ {
 		out = append(out, PoolObj{GVK: GVKWidget, Name: "w-" + strconv.Itoa(i)})
 	}
+	// identities reserved for phases handled through the annotation owner strategy (multi-cluster
+	// phase controller): an object is only ever managed through one owner strategy.
+	out = append(out, PoolObj{GVK: GVKConfigMap, Name: "rcm-0"}, PoolObj{GVK: GVKConfigMap, Name: "rcm-1"}, PoolObj{GVK: GVKWidget, Name: "rw-0"})
 	return out
 }
+
+// NativePoolSize is the number of pool identities managed through native ownerReferences.
+const NativePoolSize = 7
+
+// RemotePoolSize is the number of identities reserved for the annotation strategy.
+const RemotePoolSize = 3
 
 // Desired builds the desired manifest of a pool object; variant changes a data field
 // (so different revisions can carry different content).
